@@ -1144,4 +1144,10 @@ func writeEvidence(spec *propSpec, b *build, a *agg, violations, knownSeen int) 
 	if err := os.WriteFile(filepath.Join(dir, spec.id+".json"), append(out, '\n'), 0o644); err != nil {
 		die("cannot write evidence: %v", err)
 	}
+	if tier == "thorough" {
+		// Keep a copy: the next quick run overwrites evidence/<id>.json.
+		td := filepath.Join(dir, "thorough")
+		os.MkdirAll(td, 0o755)
+		os.WriteFile(filepath.Join(td, spec.id+".json"), append(out, '\n'), 0o644)
+	}
 }
